@@ -35,6 +35,8 @@
 //	srv.PublishStream(path, sdp, opts...) *media.Stream   media.NewStream + media.Regist —
 //	                    a live stream without an RTSP publisher; feed it with st.WriteRtpPacket.
 //	srv.Unpublish(st)   media.Unregist(st) (removes and closes)
+//	srv.Shutdown()      Service.Close(): what SIGINT/SIGTERM run before os.Exit (jobs cancelled,
+//	                    every registered stream closed, tables flushed); the listeners stay up
 //
 //	srv.RtspConns() / srv.FlvConns() / srv.WspConns()   active connection counters (stats.*)
 //	srv.RtspTotal()     total RTSP connections accepted so far
@@ -91,6 +93,7 @@ type Server struct {
 
 	mu   sync.Mutex
 	opts Options
+	svc  *service.Service
 }
 
 var (
@@ -149,6 +152,7 @@ func start(o Options) *Server {
 			svc.Listen()
 		}()
 		s.addr = addr
+		s.svc = svc
 		ok := false
 		deadline := time.Now().Add(15 * time.Second)
 	wait:
@@ -170,6 +174,17 @@ func start(o Options) *Server {
 		}
 	}
 	panic("machinery: in-process ipchub server did not come up: " + lastErr)
+}
+
+// Shutdown runs ipchub's own graceful shutdown, Service.Close(): the step the
+// signal handler takes before os.Exit - scheduled jobs cancelled, every registered
+// stream unregistered and closed, both tables flushed. The listeners are not
+// part of it, so the server of this process keeps accepting connections and
+// later cases can use it as before.
+func Shutdown() {
+	if the != nil && the.svc != nil {
+		the.svc.Close()
+	}
 }
 
 // Addr returns host:port of the listener.
